@@ -206,7 +206,38 @@ def check(ctx: Ctx, rep: Report):
                             b = prog.lookup(mod, nm)
                             if b and b[0] == "const" and isinstance(b[1], (ast.List, ast.Dict)) and nm not in _locals(fn):
                                 mutated.append("%s[...] assigned in %s" % (nm, fn.short))
-    ok = globals_found == ["protocol._modbus_tcp_tx"] and not mutated
+    # class objects are process-wide too: an attribute of a class (ClassName.x, type(self).x, self.__class__.x, cls.x)
+    # assigned from a function is shared state.  The one exemption is, like the global counter, a Modbus/TCP transaction
+    # counter: assigned only in ModbusTcpProtocolCommand.request_bytes and read nowhere else.
+    class_state = []
+    for fn in prog.functions:
+        if fn.is_lambda:
+            continue
+        alias = {}
+        for n in ast.walk(fn.node):
+            if isinstance(n, ast.Assign) and len(n.targets) == 1 and isinstance(n.targets[0], ast.Name) and norm(n.value) in ("type(self)", "self.__class__"):
+                alias[n.targets[0].id] = norm(n.value)
+        for n in ast.walk(fn.node):
+            if not isinstance(n, (ast.Assign, ast.AugAssign, ast.AnnAssign)):
+                continue
+            for t in (n.targets if isinstance(n, ast.Assign) else [n.target]):
+                if not isinstance(t, ast.Attribute):
+                    continue
+                r = t.value
+                rs = norm(r)
+                is_cls = rs in ("type(self)", "self.__class__") or (isinstance(r, ast.Name) and (
+                    r.id in alias or (r.id == "cls" and fn.is_classmethod) or ((prog.lookup(fn.module, r.id) or ("",))[0] == "class" and r.id not in _locals(fn))))
+                if not is_cls:
+                    continue
+                readers = [f for f in prog.functions if f is not fn and not f.is_lambda and any(
+                    isinstance(x, ast.Attribute) and x.attr == t.attr and isinstance(x.ctx, ast.Load) for x in ast.walk(f.node))]
+                exempt = fn.cls is not None and fn.cls.name == "ModbusTcpProtocolCommand" and fn.name == "request_bytes" and not readers
+                if not exempt:
+                    class_state.append("%s.%s assigned in %s" % (rs, t.attr, fn.short))
+    mutated.extend(class_state)
+    ok = set(globals_found) <= {"protocol._modbus_tcp_tx"} and not mutated
+    if not globals_found:
+        rep.ok("C20.R3", "counter-readers:none", "goodwe/", "no module-level name is assigned from a function")
     rep.check(ok, "C20.R3", "global-inventory", "goodwe/protocol.py", "global state written by functions: %s" % globals_found,
               bad="module-level state written from functions is %s %s, not just the exempted protocol._modbus_tcp_tx" % (globals_found, mutated))
     # the exempted counter influences nothing but the id bytes it stamps: only the function that advances it reads it
